@@ -18,7 +18,8 @@ def run(prop, tier):
     units = [dict(pre=p, opcode=op, thorough=(tier != "quick"), replayer="contracts.asmrt:replay") for p in pres for op in range(256) if op not in asmrt.PRE_BYTES]
     heavy = {0xC8, 0xC9, 0xCA, 0xCB, 0xCF, 0xC0, 0xC1, 0xC2, 0xC3, 0xC4, 0xD4, 0x54, 0x5C, 0x6E, 0x76, 0x7E, 0xB7, 0xC6, 0xC7, 0xD0, 0xD1, 0xD2, 0xD3, 0xD8, 0xD9, 0xDA, 0xDB, 0xCC, 0xCD, 0xDC}
     units.sort(key=lambda u: 0 if u["opcode"] in heavy else 1)
-    reps = common.run_units("contracts.asmrt:unit", units, budget=900)
+    units = [dict(fn="unit_listing", pre=p, per_opcode=4 if tier == "quick" else 12, replayer="contracts.asmrt:replay_listing") for p in pres] + units
+    reps = common.run_units("contracts.asmrt:unit_any", units, budget=900)
     if os.environ.get("C09_DUMP"):
         json.dump(reps, open(os.environ["C09_DUMP"], "w"), default=str)
     v.absorb(reps, known)
